@@ -526,7 +526,7 @@ def reorder (order xs : List Str) : List Str :=
 def delSock (s : State) (n : Str) : State :=
   match s.socks.find? (fun k => k.name = n) with
   | none => s
-  | some k => { closeObj s k with socks := s.socks.filter (fun k' => k'.name ≠ n) }
+  | some k => { closeObj s k with socks := s.socks.erase k }
 
 /-- `s = CircusSocket.load_from_config(cfg); s.bind_and_listen(); self.sockets[s.name] = s`.
     When `bind_and_listen` raises the new object is dropped: its descriptor is closed by the
